@@ -311,22 +311,23 @@ theorem writeFileFull_eq (code : Str → Path) (tmpdir filename : Str) (N mode :
   have hcreate : File.create tmp dst mode = (openFile tmp dst, [.createExcl tmp mode]) := rfl
   simp only [hcreate]
   have hcb := callback_onlyWrites N (openFile tmp dst) cb fault.stopRes pieces { failIn := fault.writeAt } fault.cbAt
-  generalize callback N (openFile tmp dst) cb fault.stopRes { failIn := fault.writeAt } fault.cbAt pieces = c at hcb
+  generalize callback N (openFile tmp dst) cb fault.stopRes { failIn := fault.writeAt } fault.cbAt pieces = c at hcb ⊢
   have hcm : mapU u c.2.2 = c.2.2.map .base := mapU_noUnlink u _ (onlyWrites_noUnlink tmp _ hcb)
-  have hcr : mapU u [Act.createExcl tmp mode] = [.base (.createExcl tmp mode)] := rfl
+  have hcons : ∀ l, mapU u (Act.createExcl tmp mode :: l) = Act2.base (.createExcl tmp mode) :: mapU u l :=
+    fun l => by simp [mapU]
   obtain ⟨_, hcl2, _⟩ := closeU_eq (openFile tmp dst) false u
   by_cases h1 : c.2.1 ≠ .ok
-  · simp only [h1, if_true, not_false_eq_true]
+  · rw [if_pos h1, if_pos h1]
     rw [hcl2]
-    simp [mapU_append, hcm, hcr]
+    simp [mapU_append, hcm, hcons]
   · simp only [h1, if_false]
     have hfl := bwFlush_onlyWrites (openFile tmp dst) c.1
-    generalize c.1.flush (openFile tmp dst) = fl at hfl
+    generalize c.1.flush (openFile tmp dst) = fl at hfl ⊢
     have hfm : mapU u fl.2 = fl.2.map .base := mapU_noUnlink u _ (onlyWrites_noUnlink tmp _ hfl)
     by_cases h2 : fl.1.err = true
     · simp only [h2, if_true]
       rw [hcl2]
-      simp [mapU_append, hcm, hcr, hfm]
+      simp [mapU_append, hcm, hcons, hfm]
     · simp only [h2, if_false]
       rw [commitU_eq]
       simp only
@@ -341,7 +342,7 @@ theorem writeFileFull_eq (code : Str → Path) (tmpdir filename : Str) (N mode :
           (((openFile tmp dst).commit (decide (fault = .close)) (decide (fault = .rename))).1.close false).2.1 := by
         simp [File.closeU, File.close, hcomm]
       rw [hm2, hres]
-      simp [mapU_append, hcm, hcr, hfm, List.append_assoc]
+      simp [mapU_append, hcm, hcons, hfm, List.append_assoc]
 
 /-- the same for the `safe.File` API used directly -/
 theorem fileRunFull_eq (code : Str → Path) (tmpdir filename : Str) (mode : Nat) (pieces : List Bytes) (doCommit : Bool)
@@ -359,7 +360,7 @@ theorem fileRunFull_eq (code : Str → Path) (tmpdir filename : Str) (mode : Nat
   generalize writeAll (openFile tmp dst) pieces fault.writeAt = w
   have hcl := closeU_eq (openFile tmp dst)
   by_cases h1 : w.1 ≠ .ok
-  · simp only [h1, if_true, not_false_eq_true]
+  · rw [if_pos h1, if_pos h1]
     rw [(hcl false false).2.1, mapU_false]
     simp
   · simp only [h1, if_false]
@@ -415,6 +416,7 @@ theorem mapU_prefix_sim (um : Nat) (fs : FS) (b : Bool) (l : List Act) (h : Unli
         simp [mapU, rmAct, run2, applyAct2]
       | false =>
         refine ⟨(body ++ [Act.unlink p]).length, ?_⟩
+        rw [List.take_length]
         simp [mapU, rmAct, run2, applyAct2, run_append, run]
 
 /-- the final state with the `Remove` failing: everything but the unlink has happened -/
@@ -469,5 +471,67 @@ theorem writeFile_unlinkLast (tmp dst : Path) (N mode : Nat) (pieces : List Byte
   rcases List.mem_append.mp ha with h | h
   · simp at h; subst h; rfl
   · exact onlyWrites_noUnlink tmp ws hws a h
+
+/-! ## names -/
+
+theorem char_toNat_lt (c : Char) : c.toNat < 1114112 := by
+  have := c.valid
+  simp only [Char.toNat]
+  rcases this with h | ⟨_, h⟩
+  · have : c.val.toNat < 55296 := h
+    omega
+  · exact h
+
+/-- the naming of paths the driver uses is injective -/
+theorem codeStr_inj : ∀ a b : Str, codeStr a = codeStr b → a = b := by
+  intro a
+  induction a with
+  | nil =>
+    intro b h
+    cases b with
+    | nil => rfl
+    | cons d t => simp only [codeStr] at h; have := char_toNat_lt d; omega
+  | cons c s ih =>
+    intro b h
+    cases b with
+    | nil => simp only [codeStr] at h; have := char_toNat_lt c; omega
+    | cons d t =>
+      simp only [codeStr] at h
+      have hc := char_toNat_lt c
+      have hd := char_toNat_lt d
+      have h1 : c.toNat = d.toNat := by omega
+      have h2 : codeStr s = codeStr t := by omega
+      rw [Char.toNat_inj.mp h1, ih t h2]
+
+theorem digitChar_isDigit (d : Nat) (h : d < 10) : (Char.ofNat (48 + d)).isDigit = true := by
+  have : d = 0 ∨ d = 1 ∨ d = 2 ∨ d = 3 ∨ d = 4 ∨ d = 5 ∨ d = 6 ∨ d = 7 ∨ d = 8 ∨ d = 9 := by omega
+  rcases this with h | h | h | h | h | h | h | h | h | h <;> subst h <;> decide
+
+theorem decimalAux_digits : ∀ fuel n, decimalAux fuel n ≠ [] ∧ ∀ c ∈ decimalAux fuel n, c.isDigit = true := by
+  intro fuel
+  induction fuel with
+  | zero =>
+    intro n
+    simp only [decimalAux]
+    refine ⟨by simp, ?_⟩
+    intro c hc; simp at hc; subst hc
+    exact digitChar_isDigit _ (Nat.mod_lt _ (by omega))
+  | succ fuel ih =>
+    intro n
+    simp only [decimalAux]
+    split
+    · rename_i h
+      refine ⟨by simp, ?_⟩
+      intro c hc; simp at hc; subst hc
+      exact digitChar_isDigit _ h
+    · refine ⟨by simp, ?_⟩
+      intro c hc
+      rcases List.mem_append.mp hc with h | h
+      · exact (ih _).2 c h
+      · simp at h; subst h
+        exact digitChar_isDigit _ (Nat.mod_lt _ (by omega))
+
+/-- `strconv.Itoa` of a non-negative number: at least one character, decimal digits only -/
+theorem decimal_digits (n : Nat) : decimal n ≠ [] ∧ ∀ c ∈ decimal n, c.isDigit = true := decimalAux_digits n n
 
 end Safe
